@@ -205,6 +205,9 @@ static Result check_world_surface(const J &c)
       // a point listed twice: the later entry replaces the earlier one
       bool dup = false;
       for (auto &n : nodes) if (n[0] == l[0].num() && n[1] == l[1].num()) { n[2] = l[2].num(); dup = true; }
+      // the same place listed twice with a coordinate equal to zero: the parser's "same point?" test (Utilities::approx) is false for
+      // 0 == 0, so the second entry does not replace the first - the code path of the listed finding 'zero-coordinate-corner'
+      if (dup && (l[0].num() == 0 || l[1].num() == 0)) zero_corner_listed = true;
       if (!dup) nodes.push_back({{l[0].num(), l[1].num(), l[2].num()}});
     }
   for (size_t i = 0; i < c.at("polygon").size(); ++i)
